@@ -8,8 +8,16 @@
    parallel protocol-layer group, the interface layer) hands an incoming iq stanza around.
 
    The per-kind routing (which layer registers an application request of which kind and
-   with which callbacks) is NOT written here: it is a parameter [cfg], regenerated from the
-   layers' source on every run (coq/Gen/C08Table.v, harness/translators/c08table.py).      *)
+   with which callbacks), the registry test and removal order of the two processIqRegistry
+   functions and the order "register, then hand down" of the two _sendIq functions are NOT
+   written here: they are a parameter [cfg], regenerated from the layers' source on every run
+   (coq/Gen/C08Table.v, harness/translators/c08_table.py).
+
+   Two history types: [op] (requests and deliveries strictly one after the other) and [sop]
+   (every request additionally lists the stanzas the bottom of the stack delivers upward from
+   INSIDE its send() of that request, i.e. while the sender is still in toLower of _sendIq).
+   [srun] is the executable model that is extracted and compared with the code; [run] is its
+   restriction to histories without nested deliveries (C08Sync.lift_run).                     *)
 From YV Require Import Common.Tac.
 
 (* layers that own a registry or have an "iq" entry in their handleMap *)
@@ -51,7 +59,10 @@ Record cfg := mkcfg {
   strict_iface : bool;  (* the same for YowInterfaceLayer.processIqRegistry *)
   late_delete : bool;   (* YowProtocolLayer.processIqRegistry removes the entry AFTER the callback
                            dispatch (the code removes it BEFORE: false) *)
-  late_delete_iface : bool  (* the same for YowInterfaceLayer.processIqRegistry *)
+  late_delete_iface : bool; (* the same for YowInterfaceLayer.processIqRegistry *)
+  reg_first : bool;     (* YowProtocolLayer._sendIq puts the request into iqRegistry BEFORE it hands the
+                           stanza down (the code does: true); false = toLower first, register afterwards *)
+  reg_first_iface : bool   (* the same for YowInterfaceLayer._sendIq *)
 }.
 
 (* what the application's callbacks do when invoked: the usual "retry" pattern re-issues the
@@ -265,6 +276,115 @@ Definition init : state := mkstate 1 [] (fun _ => []).
 Definition events (c : cfg) (st : state) (h : list op) : list event := concat (snd (run c st h)).
 Definition final (c : cfg) (st : state) (h : list op) : state := fst (run c st h).
 
+(* ---------- deliveries from INSIDE a send (re-entrant; added after seeded regression C08-5) ----------
+
+   A request is on the wire as soon as its stanza reaches the bottom of the stack, i.e. while the
+   sender is still inside toLower() of its own _sendIq.  A reader thread (or a transport that
+   answers synchronously) can hand stanzas upward at exactly that moment.  [sync] lists the
+   stanzas delivered from inside the bottom's send(), before it returns: replies to this very
+   request (id = the id the request gets), replays of them, non-reply iqs with the same id,
+   stanzas for other ids.  The order "register, then hand down" of the two _sendIq functions is
+   a cfg parameter read from the source ([reg_first], [reg_first_iface]).                      *)
+
+Record ndel := mkndel { nid : N; ntyp : ityp; nshape : shape }.
+
+Fixpoint deliver_all (c : cfg) (st : state) (ds : list ndel) : state * list event :=
+  match ds with
+  | [] => (st, [])
+  | d :: ds' =>
+    let '(st1, ev1) := deliver c st (nid d) (ntyp d) (nshape d) in
+    let '(st2, ev2) := deliver_all c st1 ds' in
+    (st2, ev1 ++ ev2)
+  end.
+
+(* self.iqRegistry[id] = (entity, onSuccess, onError) *)
+Definition reg_app (st : state) (i : N) (e : entry) : state := set_app st ((i, e) :: app st).
+Definition reg_layer (st : state) (l : layer) (i : N) (e : entry) : state :=
+  set_reg st l ((i, e) :: regs st l).
+
+(* YowInterfaceLayer._sendIq(entity, ...) for a fresh entity: [register;] toLower -> the claiming
+   layer's _sendIq: [register;] toLower -> ... -> bottom.send, which delivers [sync] upward before
+   it returns; [register] in the layer; [register] in the interface layer *)
+Definition app_request_sync (c : cfg) (st : state) (k : akind) (hs he : bool) (rt : retry)
+           (sync : list ndel) : state * list event :=
+  let i := next st in
+  let r := mkreq i (OApp k) in
+  let ea := mkentry r hs he rt in
+  let st0 := mkstate (N.succ i) (app st) (regs st) in
+  let st1 := if reg_first_iface c then reg_app st0 i ea else st0 in
+  let '(st4, ev) :=
+    match app_route c k with
+    | RReg l s e =>
+      let el := mkentry r s e no_retry in
+      let st2 := if reg_first c then reg_layer st1 l i el else st1 in
+      let '(st3, ev3) := deliver_all c st2 sync in
+      ((if reg_first c then st3 else reg_layer st3 l i el), EvSent i :: ev3)
+    | RFwd _ => let '(st3, ev3) := deliver_all c st1 sync in (st3, EvSent i :: ev3)
+    | RNone => (st1, [])       (* nothing reaches the bottom: nothing is delivered from inside *)
+    end in
+  ((if reg_first_iface c then st4 else reg_app st4 i ea), EvIssued i :: ev).
+
+(* a library layer's own _sendIq (YowProtocolLayer._sendIq) *)
+Definition lib_request_sync (c : cfg) (st : state) (lk : lkind) (sync : list ndel)
+  : state * list event :=
+  let i := next st in
+  let r := mkreq i (OLib lk) in
+  let '(l, (s, e)) := lib_route c lk in
+  let el := mkentry r s e no_retry in
+  let st0 := mkstate (N.succ i) (app st) (regs st) in
+  let st1 := if reg_first c then reg_layer st0 l i el else st0 in
+  let '(st2, ev2) := deliver_all c st1 sync in
+  ((if reg_first c then st2 else reg_layer st2 l i el), EvIssued i :: EvSent i :: ev2).
+
+(* histories WITH deliveries from inside a send *)
+Inductive sop :=
+| SApp (k : akind) (hs he : bool) (rt : retry) (sync : list ndel)
+| SLib (lk : lkind) (sync : list ndel)
+| SDeliver (i : N) (t : ityp) (sh : shape)
+| SOther (i : N).
+
+Definition sstep (c : cfg) (st : state) (o : sop) : state * list event :=
+  match o with
+  | SApp k hs he rt sync => app_request_sync c st k hs he rt sync
+  | SLib lk sync => lib_request_sync c st lk sync
+  | SDeliver i t sh => deliver c st i t sh
+  | SOther _ => (st, [])
+  end.
+
+Fixpoint srun (c : cfg) (st : state) (h : list sop) : state * list (list event) :=
+  match h with
+  | [] => (st, [])
+  | o :: h' =>
+    let '(st1, ev) := sstep c st o in
+    let '(st2, evs) := srun c st1 h' in
+    (st2, ev :: evs)
+  end.
+
+Definition sevents (c : cfg) (st : state) (h : list sop) : list event := concat (snd (srun c st h)).
+Definition sfinal (c : cfg) (st : state) (h : list sop) : state := fst (srun c st h).
+
+(* the sequential reading of such a history: the request, THEN what was delivered inside its send.
+   (Theorem sflat: when both _sendIq functions register first, a history and its sequential
+   reading produce the same events and the same final state.) *)
+Definition dl (d : ndel) : op := Deliver (nid d) (ntyp d) (nshape d).
+Definition flat1 (o : sop) : list op :=
+  match o with
+  | SApp k hs he rt sync => AppRequest k hs he rt :: map dl sync
+  | SLib lk sync => LibRequest lk :: map dl sync
+  | SDeliver i t sh => [Deliver i t sh]
+  | SOther i => [DeliverOther i]
+  end.
+Definition flatten (h : list sop) : list op := flat_map flat1 h.
+
+(* plain histories as histories without nested deliveries *)
+Definition lift (o : op) : sop :=
+  match o with
+  | AppRequest k hs he rt => SApp k hs he rt []
+  | LibRequest lk => SLib lk []
+  | Deliver i t sh => SDeliver i t sh
+  | DeliverOther i => SOther i
+  end.
+
 (* ---------- observation functions used by the theorems ---------- *)
 
 Definition app_cbs (i : N) (evs : list event) : list (which * request) :=
@@ -316,6 +436,20 @@ Fixpoint expected_seq (i : N) (hs he : bool) (r : request) (armed : option retry
   | _ :: h' => expected_seq i hs he r armed h'
   end.
 
+(* is an issue of id i still outstanding after h, and with which retry policy *)
+Fixpoint armed_after (i : N) (hs he : bool) (armed : option retry) (h : list op) : option retry :=
+  match h with
+  | [] => armed
+  | Deliver j t _ :: h' =>
+    match armed, which_of t with
+    | Some rt, Some w =>
+      if N.eqb i j then armed_after i hs he (next_retry hs he rt w) h'
+      else armed_after i hs he armed h'
+    | _, _ => armed_after i hs he armed h'
+    end
+  | _ :: h' => armed_after i hs he armed h'
+  end.
+
 (* the reply shape the server uses for a kind (only contact sync replies carry <sync>) *)
 Definition shape_of (k : akind) : shape := match k with KSync => ShSync | _ => ShPlain end.
 
@@ -362,8 +496,13 @@ Definition kind_ok (c : cfg) (k : akind) : bool :=
   | _ => false
   end.
 
+(* every application kind reaches the bottom of the stack (some layer claims it) *)
+Definition all_routed (c : cfg) : bool :=
+  forallb (fun k => match app_route c k with RNone => false | _ => true end) all_akinds.
+
 Definition cfg_ok (c : cfg) : bool :=
   strict_reply c && negb (late_delete c) && negb (late_delete_iface c) &&
+  reg_first c && reg_first_iface c &&
   forallb (fun k => negb (in_domain k) || kind_ok c k) all_akinds.
 
 (* ---------- the pinned tree BEFORE the C08 fixes (kept for the _refuted witnesses) ---------- *)
@@ -393,4 +532,5 @@ Definition lib_route_unrepaired (lk : lkind) : layer * (bool * bool) :=
   | LKPing => (LIq, (true, false))
   end.
 
-Definition cfg_unrepaired : cfg := mkcfg route_unrepaired lib_route_unrepaired false false false false.
+Definition cfg_unrepaired : cfg :=
+  mkcfg route_unrepaired lib_route_unrepaired false false false false true true.
